@@ -220,17 +220,42 @@ def check(ctx):
     operand_rules(ctx, P, C)
 
     # R16.6 -------------------------------------------------------------------------
+    # CompositeParameter.__eq__ followed (pvs/smallstep.py) for the eight combinations "left / right / operator agree or not":
+    # equal exactly when all three agree; an operand of another type is unequal.  However the comparison is spelled.
     feq = C.methods.get("__eq__")
-    cmp_attrs = set()
-    if feq:
-        for n in own_nodes(feq.node):
-            if isinstance(n, ast.Compare) and isinstance(n.left, ast.Attribute) and isinstance(n.comparators[0], ast.Attribute) \
-                    and n.comparators[0].attr == n.left.attr and isinstance(n.left.value, ast.Name) \
-                    and isinstance(n.comparators[0].value, ast.Name) and "self" in (n.left.value.id, n.comparators[0].value.id):
-                cmp_attrs.add(n.left.attr)
-    ctx.ob("R16.6", "CompositeParameter.__eq__ compares {left, right, operator}", cmp_attrs == {"left", "right", "operator"},
-           detail=sorted(cmp_attrs), where=feq.fq if feq else C.fq, construct="__eq__", loc=loc(feq, feq.node) if feq else "",
-           message=f"equality compares {sorted(cmp_attrs)}", consequence="structurally different expressions compare equal (or equal ones differ)")
+    if feq is None:
+        raise AnalysisError("CompositeParameter.__eq__ not found")
+    from ..smallstep import Machine, Opaque as SO2, module_constants as _mc, follow_private_methods as _fpm2
+    import itertools as _it
+    wrong = []
+    for same in _it.product([True, False], repeat=3):
+        vals = {"left": same[0], "right": same[1], "operator": same[2]}
+
+        def attrs(text, vals=vals):
+            side, _, rest = text.partition(".")
+            if rest in vals and side in ("self", "other"):
+                return ("value", rest, "mine" if side == "self" or vals[rest] else "theirs")
+            return NotImplemented
+
+        def call(m, node, name, args, kwargs):
+            if name == "isinstance" and len(args) == 2 and args[0] == SO2("other"):
+                return True
+            if name == "type" and len(args) == 1:
+                return SO2("CompositeParameter")
+            return NotImplemented
+
+        def undecided(text):
+            return False if text.replace(" ", "") in ("otherisself", "selfisother") else None
+        env = dict(_mc(feq.module.tree))
+        env.update({"self": SO2("self"), "other": SO2("other")})
+        kind, val = Machine(env, attrs, _fpm2(C, call), fuel=16, undecided=undecided).run_function(feq.node)
+        if kind != "return" or val not in (True, False):
+            raise AnalysisError(f"CompositeParameter.__eq__ does not decide the case {vals} in the model ({kind} {val!r})")
+        if val != all(same):
+            wrong.append(f"left {'same' if same[0] else 'differs'}, right {'same' if same[1] else 'differs'}, operator {'same' if same[2] else 'differs'}: __eq__ gives {val}")
+    ctx.ob("R16.6", "CompositeParameter.__eq__ is true exactly when left, right and operator all agree (8 cases)", not wrong,
+           detail=wrong, where=feq.fq, construct="__eq__", loc=loc(feq, feq.node),
+           message=f"equality decides wrongly: {wrong[:3]}", consequence="structurally different expressions compare equal (or equal ones differ)")
 
     # R16.7 -------------------------------------------------------------------------
     for cls in subclasses(repo, P):
